@@ -25,7 +25,7 @@ ASSUMPTIONS = ['every bus has a fixed number of dimensions and no scalar shares 
 @st.composite
 def order_cases(draw, tier):
     big = tier == 'thorough'
-    nl = draw(S.netlists(max_g=40 if big else 14, max_pi=5, max_st=3, need_d=False))
+    nl = draw(S.netlists(max_g=40 if big else 14, max_pi=5, max_st=5, need_d=False, shift_regs=True))
     return dict(nl=nl, iso=draw(st.integers(0, 2)), dang=draw(st.integers(0, 2)),
                 origins=draw(st.lists(st.integers(0, 10000), min_size=1, max_size=4)))
 
